@@ -502,7 +502,7 @@ func TestExhaustiveShort(t *testing.T) {
 var modes = []string{"canonical", "long-form-short-len", "leading-zero-len", "wrapped-single-byte", "truncated", "trailing", "huge-len", "big-len", "int-leading-zero", "random"}
 
 func TestItemsAndNearMisses(t *testing.T) {
-	ev.Check(t, ev.N(6000, 2_000_000), func(t *rapid.T) {
+	ev.Check(t, ev.N(30000, 2_000_000), func(t *rapid.T) {
 		it := genItem(3).Draw(t, "item")
 		mode := rapid.SampledFrom(modes).Draw(t, "mode")
 		canon := refrlp.Encode(it)
@@ -601,7 +601,7 @@ func genU64() *rapid.Generator[uint64] {
 }
 
 func TestTypedRoundTrip(t *testing.T) {
-	ev.Check(t, ev.N(3000, 600_000), func(t *rapid.T) {
+	ev.Check(t, ev.N(12000, 600_000), func(t *rapid.T) {
 		var v tStruct
 		v.U8 = rapid.Uint8().Draw(t, "u8")
 		v.U16 = rapid.Uint16().Draw(t, "u16")
@@ -817,7 +817,7 @@ func mutateOneHeader(t *rapid.T, it refrlp.Item) ([]byte, string) {
 }
 
 func TestConsensusTypes(t *testing.T) {
-	ev.Check(t, ev.N(2500, 500_000), func(t *rapid.T) {
+	ev.Check(t, ev.N(10000, 500_000), func(t *rapid.T) {
 		which := rapid.SampledFrom([]string{"Header", "Transaction", "Receipt", "Log", "Account", "Block"}).Draw(t, "which")
 		var val interface{}
 		var item refrlp.Item
@@ -962,7 +962,7 @@ func txRecipientOffset(item refrlp.Item) int {
 // ---------- bounded allocation with hostile declared lengths ----------
 
 func TestDeclaredLengthBound(t *testing.T) {
-	ev.Check(t, ev.N(1500, 100_000), func(t *rapid.T) {
+	ev.Check(t, ev.N(5000, 100_000), func(t *rapid.T) {
 		ll := rapid.IntRange(1, 8).Draw(t, "lenlen")
 		lb := rapid.SliceOfN(rapid.Byte(), ll, ll).Draw(t, "lenbytes")
 		if lb[0] == 0 {
